@@ -109,6 +109,9 @@ pub fn glob_match(pattern: &str, path: &str) -> bool {
         if let Some(ext) = rest.strip_prefix("*.") {
             return path.ends_with(&format!(".{ext}"));
         }
+        if rest.contains('[') || rest.contains('{') {
+            return false; // `[id]` / `{slug}` are pattern syntax, not the literal file name
+        }
         return path == rest || path.ends_with(&format!("/{rest}"));
     }
     if let Some(dir) = pattern.strip_suffix("/**") {
@@ -121,6 +124,11 @@ pub fn glob_match(pattern: &str, path: &str) -> bool {
     }
     if let Some(ext) = pattern.strip_prefix("*.") {
         return path.ends_with(&format!(".{ext}"));
+    }
+    // an "exact path" that contains glob metacharacters is still a pattern: `[id]` is a character
+    // class and `{slug}` an alternation, neither matches the file of that literal name
+    if pattern.contains('[') || pattern.contains('{') {
+        return false;
     }
     pattern == path
 }
@@ -837,8 +845,8 @@ pub fn invalid_reason(world: &World) -> Option<String> {
                     {
                         return Some(format!("content line {l:?} looks like a comment or tag"));
                     }
-                    if l.contains('\r') {
-                        return Some("CR in content".into());
+                    if l.contains('\r') && (!l.ends_with('\r') || l.matches('\r').count() > 1 || !f.path.ends_with(".py")) {
+                        return Some("CR other than one line-final CR in a .py file".into());
                     }
                 }
             }
